@@ -205,10 +205,9 @@ Section Atomic.
     | _ => atomic_dgr g
     end.
 
-  (** [approx_eq_real]: float_cmp approx_eq!(f64, x, y, ulps = 2) -- modelled
-      at the [R] instance as exact equality and never used at the float
-      instance (matrix gates are only built from exact tables there). *)
-  Definition approx_eq (x y : F) : bool := feqb OP x y.
+  (** [approx_eq_real]: float_cmp approx_eq!(f64, x, y, ulps = 2); exact
+      equality at the [R] instance *)
+  Definition approx_eq (x y : F) : bool := fapprox OP x y.
 
   Definition is_unitary_m1 (u : M1) : bool :=
     let e00 := cnorm2 OP (mget u 0) + cnorm2 OP (mget u 1) in
